@@ -120,6 +120,9 @@ pub fn run_campaigns(cfg: &CheckCfg, scratch: &Path) -> Result<Agg, String> {
         }
         if pid == 0 {
             let mut agg = Agg::default();
+            // VERIF_SIGDUMP=<dir>: one line per run (campaign, index, event-log hash, ending, verdict
+            // classes) for comparing whole checks across worker counts (tools/determinism.sh)
+            let mut sigdump = std::env::var("VERIF_SIGDUMP").ok().and_then(|d| std::fs::File::create(format!("{}/sig-{}-{:02}.txt", d, cfg.prop, w)).ok());
             let mut ctx = runner::RunCtx::new(scratch.join(format!("w{:02}", w)));
             ctx.manifest = cfg.prop == "C13";
             for c in &plan {
@@ -144,6 +147,10 @@ pub fn run_campaigns(cfg: &CheckCfg, scratch: &Path) -> Result<Agg, String> {
                     }
                     let sc = (c.gen)(idx);
                     let out = runner::run_one(&mut ctx, &sc);
+                    if let Some(f) = sigdump.as_mut() {
+                        use std::io::Write;
+                        let _ = writeln!(f, "{} {} {:016x} {} {:?}", c.name, idx, out.sig, out.end, out.verdicts.iter().map(|v| v.class.as_str()).collect::<Vec<_>>());
+                    }
                     if kept < 1 && w < 6 && out.evaluated && out.events > 8 {
                         agg.samples.push(evidence::sample(&sc, &out));
                         kept += 1;
